@@ -85,7 +85,9 @@ def check_process(n, prog, methods, env, acc):
                 if not np.allclose(choi, choi.conj().T, atol=1e-6):
                     acc.violation("mle_choi_not_hermitian", c, None)
                 ev = np.linalg.eigvalsh((choi + choi.conj().T) / 2)
-                if ev.min() < -1e-3:
+                # the estimate is a convex combination of outputs of the positive projection: non-negative up to rounding
+                # (measured on the unchanged tree: > -1e-15 over every job of three seeds), so 1e-9 and not the solver's 1e-3
+                if ev.min() < -1e-9:
                     acc.violation("mle_choi_not_positive", c, {"min_eigenvalue": float(ev.min())})
                 pt_a, pt_b = partial_traces(choi, d)
                 if min(np.abs(pt_a - np.eye(d)).max(), np.abs(pt_b - np.eye(d)).max()) > 1e-3:
@@ -208,7 +210,7 @@ def run(tier, seed):
                 "distinct_nontrivial = distinct processes that are complex or non-symmetric.",
         "exhaustive": True,
         "bounds": {"processes": len(jobs), "mle_runs": sum(1 for j in jobs if "MLE" in j[2])},
-        "assumptions": ["MLE is an iterative solver: thresholds 0.99 / 1e-3 as stated", "scipy sqrtm inside the library's fidelity"],
+        "assumptions": ["MLE is an iterative solver: fidelity >= 0.99 and trace preservation to 1e-3 as stated; positivity to 1e-9 (the last step is a positive projection)", "scipy sqrtm inside the library's fidelity"],
     }
     return acc, meta
 
